@@ -499,6 +499,48 @@ class CFG(object):
                                      keep=keep)
         return cache[key]
 
+    def itext(self, expr, nid, keep=()):
+        """Canonical text of `expr` as evaluated at node nid, with
+        single-definition locals replaced by their defining expression - the
+        same whether or not the source names intermediate results."""
+        from .dataflow import inline_expr
+        from . import canon
+        e = inline_expr(self.rd, expr, nid, keep=keep)
+        try:
+            e = canon.normalize(e) if isinstance(e, ast.expr) else e
+        except Exception:
+            pass
+        return canon.ctext(e)
+
+    def iexprs(self):
+        """{itext: [node ids]} for every sub-expression evaluated by the
+        function (used for 'the function computes X somewhere' obligations)."""
+        cache = self.__dict__.get("_iexprs")
+        if cache is None:
+            cache = {}
+            for n in self.nodes:
+                if n.kind in ("true", "false", "exc", "handler"):
+                    continue
+                for top in self.own_exprs(n):
+                    for sub in ast.walk(top):
+                        if isinstance(sub, ast.expr) and not isinstance(
+                                sub, (ast.Constant,)) and not isinstance(
+                                getattr(sub, "ctx", None), (ast.Store, ast.Del)):
+                            try:
+                                t = self.itext(sub, n.id)
+                            except Exception:
+                                continue
+                            cache.setdefault(t, []).append(n.id)
+            self.__dict__["_iexprs"] = cache
+        return cache
+
+    def computes(self, text):
+        """Does the function evaluate an expression equal (after inlining
+        temporaries and canonicalisation) to `text`?"""
+        from . import canon
+        want = canon.ctext(canon.normalize(ast.parse(text, mode="eval").body))
+        return want in self.iexprs()
+
     def guards(self, nid, inline=False):
         """[(expr, polarity, branch_node_id)] for every branch node dominating
         `nid`, as canonical atoms (see sa/canon.py): negative operators are
